@@ -349,11 +349,11 @@ fn boxes_of_every_constructor(rng: &mut Rng) {
 pub fn run(rng: &mut Rng, n: usize) {
     for _ in 0..n {
         for _ in 0..4 {
-            circle_pairs(rng);
-            tangents(rng);
-            lines(rng);
+            case("circle.case", "c11.library_call_panics", || circle_pairs(rng));
+            case("circle.case", "c11.library_call_panics", || tangents(rng));
+            case("circle.case", "c11.library_call_panics", || lines(rng));
         }
-        arcs(rng);
-        boxes_of_every_constructor(rng);
+        case("circle.case", "c11.library_call_panics", || arcs(rng));
+        case("circle.case", "c11.library_call_panics", || boxes_of_every_constructor(rng));
     }
 }
